@@ -589,6 +589,11 @@ void abt_verif_event(int kind, const void *p1, const void *p2, long v)
     if (!on || !me)
         return;
     vthread *self = me;
+    if (kind == 50 && logf && !lookup(p2)) {
+        /* wait-list node on a waiter's stack (external thread / timed wait): name it while it is queued */
+        static int wn;
+        vs_name(p2, 96, "W%d", wn++);
+    }
     if (mode_pct && kind == 8) /* a yielding thread goes to the back (PCT treatment of yields) */
         self->prio = pct_low--;
     point(self);
@@ -599,6 +604,11 @@ void abt_verif_event(int kind, const void *p1, const void *p2, long v)
     self->lg_addr = NULL;
     char n1[64], n2[64], u[64];
     fprintf(logf, "E %d %s %d %s %s %ld\n", self->id, unit_name(u, sizeof u), kind, vs_addr_name(p1, n1, sizeof n1), vs_addr_name(p2, n2, sizeof n2), v);
+    if (kind == 51) { /* timed-out node leaves the list: its stack slot will be reused */
+        nm *e = lookup(p2);
+        if (e && e->name[0] == 'W')
+            vs_unname(e->base);
+    }
 }
 
 /* ------------------------------------------------------------ wrappers */
